@@ -95,7 +95,15 @@ fn unknown_operation() -> S3Error {
 }
 
 fn extract_host(req: &Request) -> S3Result<Option<String>> {
-    let Some(val) = req.headers.get(crate::header::HOST) else { return Ok(None) };
+    let Some(val) = req.headers.get(crate::header::HOST) else {
+        // HTTP/2 has no Host header: the host travels in `:authority`, which arrives as the authority of the URI
+        if req.version == ::http::Version::HTTP_2 {
+            if let Some(authority) = req.uri.authority() {
+                return Ok(Some(authority.as_str().into()));
+            }
+        }
+        return Ok(None);
+    };
     let on_err = |e| s3_error!(e, InvalidRequest, "invalid header: Host: {val:?}");
     let host = val.to_str().map_err(on_err)?;
     Ok(Some(host.into()))
